@@ -93,7 +93,7 @@ def config_case(draw):
         case['where'] = 'custom'
         case['scheme'] = draw(st.sampled_from(SCHEMES_ANY))
         case['key'] = draw(st.sampled_from(['model_uri', 'upload_to', 'webhook', 'extra_cfg', 'camera']))
-        case['nest'] = draw(st.lists(st.sampled_from(['list', 'tuple', 'dict', 'adict', 'commastr']), max_size=3))
+        case['nest'] = draw(st.lists(st.sampled_from(['list', 'tuple', 'dict', 'adict', 'commastr', 'dictkey']), max_size=3))    # dictkey: the URI is the *key* of a mapping (per-camera settings)
     case['lineage'] = draw(st.booleans())
     case['two'] = draw(st.booleans())
     case['path'] = draw(st.sampled_from(['/live/stream1', '/live/stream1', '', ':8554']))   # host-only URIs are what makes a following URI interesting
@@ -260,6 +260,7 @@ def build_config(case):
         val = uri
         for n in reversed(case['nest']):
             val = [other, val] if n == 'list' else (val, 7) if n == 'tuple' else {'inner': val, 'n': 1} if n == 'dict' else \
+                {val: {'zone': 1}, 'default': {'zone': 0}} if n == 'dictkey' and isinstance(val, str) else {'cams': val} if n == 'dictkey' else \
                 utils.adict(inner=val) if n == 'adict' else (f'{val}{sep}{other}' if isinstance(val, str) else [val])
         cfg[case['key']] = val
     if embed:
